@@ -203,6 +203,120 @@ class RefCount(object):
     return repr((self.count, self.sink._ref_count, self.under.open_calls, self.under.close_calls, self.nops))
 
 
+class RefCountYield(object):
+  """The reference-counted sink over an underlying sink whose Close() is cooperative (it yields to the loop twice before the
+  connection is really closed, as a graceful shutdown does).  Holders run in their own greenlets; an operation is issued either at a
+  quiescent point or (mode 1, at most `max_preempt` per history) after only ONE ready callback of the previous activity has run, i.e.
+  while an earlier Open/Close is still in progress."""
+  def __init__(self, params):
+    import gevent
+    from scales.sink import RefCountedSink
+    self.p = params
+    self.reg = stubs.Registry()
+    self.reg.reopen_ok = True
+    self.under = self.reg.cls(self.reg, stubs.make_endpoint(0), {})
+    self.events = []
+    oo, oc = self.under.Open, self.under.Close
+
+    def Open():
+      self.events.append('open')
+      return oo()
+
+    def Close():
+      self.events.append('close-begin')
+      for _ in range(params.get('close_yields', 2)):
+        gevent.sleep(0)
+      r = oc()
+      self.events.append('close-end')
+      return r
+    self.under.Open, self.under.Close = Open, Close
+    self.sink = RefCountedSink(self.under)
+    self.count = 0
+    self.nops = 0
+    self.pre = 0
+    self.viol = []
+    self.ops = []       # (kind, greenlet, set of earlier operations that had finished when it was issued)
+
+  def v(self, clause, msg):
+    self.viol.append({'clause': clause, 'message': msg, 'sig': {}})
+
+  def apply(self, op):
+    import gevent
+    from scales.constants import ChannelState
+    self.nops += 1
+    # operations that were still running when this one was issued are concurrent with it: they may take effect in either order
+    finished = frozenset(i for i, (k, g, _) in enumerate(self.ops) if g.dead)
+    g = gevent.spawn(self.sink.Open if op[0] == 'Open' else self.sink.Close)
+    self.ops.append((op[0], g, finished))
+    if op[2]:
+      self.pre += 1
+      vloop.run_ready(budget=1)
+      return
+    vloop.run_ready()
+    self.count = None
+    counts = self._possible_counts()
+    if self.sink._ref_count not in counts:
+      self.v('C16.refcount-count', 'after %r: the sink counts %d holders; the Open/Close calls made so far allow %r'
+             % (op, self.sink._ref_count, sorted(counts)))
+      return
+    self.count = self.sink._ref_count
+    # quiescent: everything issued so far has finished
+    ev = self.events
+    depth = 0
+    for i, e in enumerate(ev):
+      if e == 'close-begin':
+        depth += 1
+      elif e == 'close-end':
+        depth -= 1
+      elif depth > 0:
+        self.v('C16.refcount-overlap', 'after %r: the underlying sink was opened while its Close() was still in progress (underlying '
+               'events %r)' % (op, ev))
+        break
+    is_open = self.under.state == ChannelState.Open
+    if self.count > 0 and not is_open:
+      self.v('C16.refcount-live', 'after %r: %d holders are alive but the underlying sink is not open (underlying events %r)'
+             % (op, self.count, ev))
+    if self.count == 0 and is_open:
+      self.v('C16.refcount-close', 'after %r: no holder is left but the underlying sink is still open (underlying events %r)' % (op, ev))
+
+  def _possible_counts(self):
+    """Holder counts reachable by some order of the calls that respects 'finished before the other was issued'."""
+    n = len(self.ops)
+    out = set()
+    seen = set()
+
+    def rec(done, count):
+      if (done, count) in seen:
+        return
+      seen.add((done, count))
+      if len(done) == n:
+        out.add(count)
+        return
+      for i in range(n):
+        if i in done:
+          continue
+        kind, g, fin = self.ops[i]
+        if not fin <= done:
+          continue
+        # i may come next only if no unfinished-before-it op is still missing, and nothing that was issued after i finished
+        # ... precedes it: j must precede i whenever j had finished when i was issued (fin), checked above
+        rec(done | frozenset([i]), count + 1 if kind == 'Open' else max(0, count - 1))
+    rec(frozenset(), 0)
+    return out
+
+  def enabled(self):
+    ops = []
+    modes = [0] + ([1] if self.pre < self.p.get('max_preempt', 1) else [])
+    for j in modes:
+      ops.append(['Open', 0, j])
+      ops.append(['Close', 0, j])
+    return ops
+
+  def key(self):
+    return repr((self.sink._ref_count, tuple(self.events), self.pre, len(vloop.loop()._ready), self.nops,
+                 tuple((k, g.dead) for (k, g, f) in self.ops)))
+
+
 class Shared(object):
   KEYS = ['k1', 'k2', None]
 
@@ -277,7 +391,7 @@ class Shared(object):
                  tuple(s.state if s is not None else None for (k, s) in self.refs)))
 
 
-KINDS = {'singleton': Single, 'refcount': RefCount, 'shared': Shared}
+KINDS = {'singleton': Single, 'refcount': RefCount, 'shared': Shared, 'refcount-yield': RefCountYield}
 
 
 def build(params, hist):
@@ -307,12 +421,14 @@ CONFIGS = {
     ('singleton pending opens', {'which': 'singleton', 'max_opens': 1, 'surplus': 0, 'max_reqs': 3, 'max_faults': 1, 'open_mode': 'pending'}, 8),
     ('refcount 3 holders', {'which': 'refcount', 'holders': 3}, 8),
     ('shared provider 3 keys', {'which': 'shared', 'max_refs': 4}, 8),
+    ('refcount over a sink whose Close yields', {'which': 'refcount-yield', 'max_preempt': 2}, 7),
   ],
   'thorough': [
     ('singleton immediate opens', {'which': 'singleton', 'max_opens': 2, 'surplus': 1, 'max_reqs': 4, 'max_faults': 2}, 10),
     ('singleton pending opens', {'which': 'singleton', 'max_opens': 2, 'surplus': 0, 'max_reqs': 4, 'max_faults': 2, 'open_mode': 'pending'}, 10),
     ('refcount 3 holders', {'which': 'refcount', 'holders': 3}, 10),
     ('shared provider 3 keys', {'which': 'shared', 'max_refs': 5}, 10),
+    ('refcount over a sink whose Close yields', {'which': 'refcount-yield', 'max_preempt': 3, 'close_yields': 3}, 9),
   ],
 }
 
